@@ -16,7 +16,7 @@ META = {
               'the data element of a slot to the cell of the same slot; every producer of a VoronoiIntegrator keeps `cells` slot-aligned with the generators (element-wise adaptors only); '
               'get_cell_at(i) reads slot i',
         'R3': 'provenance: compute_cell_integral initialises with (this cell, its data) and feeds each tetrahedron of this cell\'s decomposition as (v0, v1, v2, this cell\'s generator); '
-              'face integrals are initialised for and fed by the plane index of the tetrahedron (C03.R6)',
+              'the loop runs to the end of the stream; face integrals are initialised for and fed by the plane index of the tetrahedron (C03.R6)',
         'R6': 'decomposition with stored faces (structure): a fan per face — state (face f, corner j) yields the tetrahedron with base (w[0], w[j], w[j+1]), w = face_vertices(f), '
               'all three looked up in the cell\'s vertex list, labelled with faces[f].clipping_plane (the plane all of the face\'s vertices lie in, C15.R7); j runs 1 .. count(f)-2 '
               '(count-2 triangles per face, none skipped or repeated), then the next face starts at j = 1; None exactly when no face is left; the walk starts at (0, 1)',
@@ -226,6 +226,9 @@ def r3(ctx, F, rule, sfx):
         ctx.check(rule, 'every-tetrahedron-collected' + sfx, not extra, [repr(g)[:60] for g in extra], 'no tetrahedron skipped', w, key_extra='skip')
     else:
         ctx.incomplete(rule, 'fed-with-tetrahedron-and-generator' + sfx, 'collect calls %d, stream reads %d' % (len(col), len(nx)), w)
+    early = early_exits(ip)
+    ctx.check(rule, 'loop-runs-to-the-end-of-the-stream' + sfx, not early, ('the tetrahedron loop is left with a tetrahedron in hand when %s' % early[0]) if early else 'the loop over the tetrahedra ends only when the stream does',
+              'every tetrahedron of the decomposition is handed to the integral', w, key_extra='early-exit')
     ok = len(fin) == 1 and I.vkey(I.frozen(v)) == I.vkey(I.frozen(fin[0].result))
     ctx.check(rule, 'result-is-finalised-integral' + sfx, ok, repr(v)[:80], 'integrator.finalize()', w, key_extra='finalize')
     c03.r6(ctx, F, rule, sfx)
